@@ -9,27 +9,40 @@ import (
 
 // C02 — table replacement is atomic, keeps the last good table, never crashes.
 //
-// Facts the model silently depends on, as *skeletons*: for each anchored function the ordered list of the
-// control statements (if / for / range / return / continue) and of the calls and assignments that matter, every
-// other statement (logging, metrics, comments) left out — so a harmless edit does not raise an alarm, while a
-// reordering of "build, check error, SetTable, remember text" does.
+// Facts the model silently depends on, as ordered EVENT lists that pin meaning rather than spelling:
 //
-//   - SetTable returns before table.Store when t == nil; Store/Load sites of the atomic cell;
-//   - GetTable is one table.Load();
-//   - NewTable / NewTableCustom return `nil, err` on the first failing command (never a partial table);
-//     NewTableCustom rejects a nil definition list before dereferencing it (repair of D27);
+//   - the AST is normalised first (package constants inlined, literal concatenations folded, switch -> if chain);
+//   - calls to unexported same-package helpers are followed into the helper (extract / inline helper): a helper
+//     contributes its loops, guards, calls and stores at the call site, its own `return`s end the helper only;
+//   - an `if`, `for` or `range` is an event only when something that matters happens inside it (a pinned call, a
+//     pinned store, a return / continue / break of the anchored function), so logging branches, option dispatch
+//     and the like do not appear;
+//   - variables are named by ROLE: receiver `recv`, i-th parameter `p<i>`, a local by what it is first assigned
+//     from (`NewTable#0` = first result of the call to NewTable, `recv(WatchServices#0)` = received from the
+//     channel WatchServices returned, `copy(X)` = assigned from the variable with role X, range variables
+//     `rangeK`/`rangeV`), a package-level variable by its type (`var:atomic.Value`), everything else `_`;
+//   - `x != nil` guards are `if(≠nil)`, `x == nil` guards `if(=nil:<role>)`; returns are classified per result as
+//     `nil` / `val`; a handful of net/http constants are replaced by their values.
+//
+// What is pinned:
+//   - SetTable returns before the only Store on nil; GetTable is one Load and no other call; the cell (the
+//     package-level atomic.Value) is touched by init/SetTable/GetTable through Load/Store only;
+//   - NewTable / NewTableCustom return `nil, err` from every exit but the last (no partial table);
+//     NewTableCustom refuses a nil definition list first (repair of D27);
 //   - Parse returns the scanner error (repair of D29);
 //   - watchBackend: concatenation order, skip when unchanged, `continue` on error BEFORE route.SetTable,
-//     `lastTable = nextTable` AFTER it and nowhere else;
+//     the remembered text assigned AFTER it and nowhere else;
 //   - customRoutes: `continue` on transport/status/decode errors, route.SetTable unconditionally after
 //     NewTableCustom, the decode target declared per poll (repair of D32);
-//   - the only recover() in route/, main.go, registry/custom is the guard around gobwas/glob's Match (repair of
-//     D33); no other is relied upon;
-//   - non-finite weights rejected in addRoute/weighRoute (repair of D02), host pattern compiled in addRoute
-//     (repair of D03), no glob.MustCompile in package route;
+//   - the only recover() in route/, main.go, registry/custom guards the third-party glob Match (repair of D33)
+//     and every Match call of package route is inside such a function;
+//   - every function of package route that reads RouteDef.Weight refuses non-finite weights (repair of D02),
+//     the function that compiles route patterns compiles two different ones (host and path: repair of D03), no
+//     glob.MustCompile in package route;
 //   - every lookup closure of main.go calls route.GetTable() exactly once.
 func init() {
 	register("C02", func(x *X) error {
+		x.UseNormalizedAST()
 		c02Cell(x)
 		c02Build(x)
 		c02Watch(x)
@@ -40,156 +53,403 @@ func init() {
 	})
 }
 
-type c02Skel struct {
-	x     *X
-	calls map[string]bool // rendered callee → keep (arguments rendered)
-	vars  map[string]bool // assigned identifiers to keep
-	out   []string
+// ---- roles ------------------------------------------------------------------------------------------------
+
+var c02StdConsts = []struct{ from, to string }{
+	{"http.StatusOK", "200"}, {"http.MethodGet", `"GET"`}, {"http.MethodPost", `"POST"`},
+	{"http.StatusNotFound", "404"}, {"http.StatusInternalServerError", "500"},
 }
 
-func (s *c02Skel) exprCalls(n ast.Node) {
+// c02PkgVars maps the package-level variables of a package to "var:<type or initialiser callee>".
+func c02PkgVars(x *X, dir string) map[string]string {
+	out := map[string]string{}
+	for _, f := range x.files(dir) {
+		for _, d := range f.Decls {
+			gd, ok := d.(*ast.GenDecl)
+			if !ok || gd.Tok != token.VAR {
+				continue
+			}
+			for _, s := range gd.Specs {
+				vs := s.(*ast.ValueSpec)
+				for i, n := range vs.Names {
+					switch {
+					case vs.Type != nil:
+						out[n.Name] = "var:" + x.src(vs.Type)
+					case i < len(vs.Values):
+						if c, ok := vs.Values[i].(*ast.CallExpr); ok {
+							out[n.Name] = "var:=" + x.src(c.Fun)
+						} else {
+							out[n.Name] = "var:_"
+						}
+					}
+				}
+			}
+		}
+	}
+	return out
+}
+
+type c02Ctx struct {
+	x       *X
+	dir     string
+	pkgVars map[string]string
+	keep    func(callee string, args []string) bool // which calls are events (rendered callee and arguments)
+	track   func(role string) bool                  // stores to which roles are events
+	out     []string
+	stack   map[string]bool
+}
+
+// roles computes the role of every receiver / parameter / local of fd; init gives the roles of receiver and
+// parameters (for an inlined helper: the roles of the actual arguments).
+func (c *c02Ctx) roles(fd *ast.FuncDecl, init map[string]string) map[string]string {
+	r := map[string]string{}
+	for k, v := range c.pkgVars {
+		r[k] = v
+	}
+	recv, params, _ := c.x.LocalNames(fd)
+	if recv != "" {
+		r[recv] = "recv"
+	}
+	for i, p := range params {
+		r[p] = "p" + itoa(i)
+	}
+	for k, v := range init {
+		r[k] = v
+	}
+	local := map[string]bool{}
+	if recv != "" {
+		local[recv] = true
+	}
+	for _, p := range params {
+		local[p] = true
+	}
+	set := func(id *ast.Ident, role string) {
+		if id == nil || id.Name == "_" {
+			return
+		}
+		if !local[id.Name] {
+			local[id.Name] = true
+			r[id.Name] = role
+		}
+	}
+	roleOf := func(e ast.Expr, i, n int) string {
+		switch v := e.(type) {
+		case *ast.CallExpr:
+			name := ""
+			switch f := v.Fun.(type) {
+			case *ast.Ident:
+				if f.Name == "new" || f.Name == "make" {
+					return c.x.src(v)
+				}
+				name = f.Name
+			case *ast.SelectorExpr:
+				name = f.Sel.Name
+			default:
+				return "_"
+			}
+			return name + "#" + itoa(i)
+		case *ast.CompositeLit:
+			return "lit:" + c.x.src(v.Type)
+		case *ast.UnaryExpr:
+			if v.Op == token.ARROW {
+				if id, ok := v.X.(*ast.Ident); ok {
+					return "recv(" + r[id.Name] + ")"
+				}
+				return "recv(_)"
+			}
+			if cl, ok := v.X.(*ast.CompositeLit); ok && v.Op == token.AND {
+				return "lit:" + c.x.src(cl.Type)
+			}
+		case *ast.Ident:
+			if ro, ok := r[v.Name]; ok && local[v.Name] && n == 1 {
+				return "copy(" + ro + ")"
+			}
+		}
+		return "_"
+	}
+	assign := func(lhs []ast.Expr, rhs []ast.Expr) {
+		for i, l := range lhs {
+			id, ok := l.(*ast.Ident)
+			if !ok {
+				continue
+			}
+			switch {
+			case len(rhs) == len(lhs):
+				set(id, roleOf(rhs[i], 0, 1))
+			case len(rhs) == 1:
+				set(id, roleOf(rhs[0], i, len(lhs)))
+			default:
+				set(id, "_")
+			}
+		}
+	}
+	// locals declared without a value get their role from their first assignment, so two passes: assignments
+	// first (source order), then whatever is left
+	if fd.Body != nil {
+		ast.Inspect(fd.Body, func(n ast.Node) bool {
+			switch v := n.(type) {
+			case *ast.FuncLit:
+				return true
+			case *ast.AssignStmt:
+				assign(v.Lhs, v.Rhs)
+			case *ast.ValueSpec:
+				if len(v.Values) > 0 {
+					ls := make([]ast.Expr, len(v.Names))
+					for i, n := range v.Names {
+						ls[i] = n
+					}
+					assign(ls, v.Values)
+				}
+			case *ast.RangeStmt:
+				if id, ok := v.Key.(*ast.Ident); ok {
+					set(id, "rangeK")
+				}
+				if id, ok := v.Value.(*ast.Ident); ok {
+					set(id, "rangeV")
+				}
+			}
+			return true
+		})
+		ast.Inspect(fd.Body, func(n ast.Node) bool {
+			if v, ok := n.(*ast.ValueSpec); ok {
+				for _, id := range v.Names {
+					if v.Type != nil {
+						set(id, "decl:"+c.x.src(v.Type))
+					} else {
+						set(id, "_")
+					}
+				}
+			}
+			return true
+		})
+	}
+	return r
+}
+
+// render prints an expression with identifiers replaced by roles.
+func (c *c02Ctx) render(e ast.Node, roles map[string]string) string {
+	s := c.x.RenameLocals(e, roles)
+	for _, k := range c02StdConsts {
+		s = strings.ReplaceAll(s, k.from, k.to)
+	}
+	return s
+}
+
+func (c *c02Ctx) cond(e ast.Expr, roles map[string]string) string {
+	if b, ok := e.(*ast.BinaryExpr); ok {
+		if id, ok := b.Y.(*ast.Ident); ok && id.Name == "nil" {
+			switch b.Op {
+			case token.NEQ:
+				return "≠nil"
+			case token.EQL:
+				return "=nil:" + c.render(b.X, roles)
+			}
+		}
+	}
+	return c.render(e, roles)
+}
+
+func (c *c02Ctx) callee(call *ast.CallExpr, roles map[string]string) string {
+	switch f := call.Fun.(type) {
+	case *ast.Ident:
+		return f.Name
+	case *ast.SelectorExpr:
+		return c.render(f.X, roles) + "." + f.Sel.Name
+	}
+	return "_"
+}
+
+// exprEvents emits the call events of an expression in source order and follows unexported helpers.
+func (c *c02Ctx) exprEvents(n ast.Node, roles map[string]string, depth int) {
 	if n == nil {
 		return
 	}
 	ast.Inspect(n, func(m ast.Node) bool {
-		switch c := m.(type) {
+		switch v := m.(type) {
 		case *ast.FuncLit:
-			s.block(c.Body)
+			c.block(v.Body, roles, depth, true)
 			return false
 		case *ast.CallExpr:
-			fn := s.x.src(c.Fun)
-			if s.calls[fn] {
-				var as []string
-				for _, a := range c.Args {
-					if _, ok := a.(*ast.FuncLit); ok {
-						as = append(as, "func")
-					} else {
-						as = append(as, s.x.src(a))
-					}
-				}
-				s.out = append(s.out, "call:"+fn+"("+strings.Join(as, ", ")+")")
+			// arguments first (they are evaluated first)
+			for _, a := range v.Args {
+				c.exprEvents(a, roles, depth)
 			}
+			if se, ok := v.Fun.(*ast.SelectorExpr); ok {
+				c.exprEvents(se.X, roles, depth)
+			}
+			name := c.callee(v, roles)
+			var as []string
+			for _, a := range v.Args {
+				if _, ok := a.(*ast.FuncLit); ok {
+					as = append(as, "func")
+				} else {
+					as = append(as, c.render(a, roles))
+				}
+			}
+			if c.keep(name, as) {
+				c.out = append(c.out, "call:"+name+"("+strings.Join(as, ", ")+")")
+			}
+			c.inline(v, roles, depth)
+			return false
 		}
 		return true
 	})
 }
 
-func (s *c02Skel) ret(r *ast.ReturnStmt) {
-	var rs []string
-	for _, e := range r.Results {
-		t := s.x.src(e)
-		if id, ok := e.(*ast.Ident); ok {
-			t = id.Name
-		} else if len(t) > 40 {
-			t = "_"
+// inline follows a call to an unexported function or method of the same package.
+func (c *c02Ctx) inline(call *ast.CallExpr, roles map[string]string, depth int) {
+	name := ""
+	var recvExpr ast.Expr
+	switch f := call.Fun.(type) {
+	case *ast.Ident:
+		name = f.Name
+	case *ast.SelectorExpr:
+		name, recvExpr = f.Sel.Name, f.X
+	}
+	if name == "" || ast.IsExported(name) || depth >= 4 || c.stack[name] {
+		return
+	}
+	fd := c.x.anyFuncDecl(c.dir, name)
+	if fd == nil {
+		return
+	}
+	init := map[string]string{}
+	recv, params, _ := c.x.LocalNames(fd)
+	if recv != "" && recvExpr != nil {
+		init[recv] = c.render(recvExpr, roles)
+	}
+	for i, p := range params {
+		if i < len(call.Args) {
+			init[p] = c.render(call.Args[i], roles)
 		}
-		rs = append(rs, t)
 	}
-	s.out = append(s.out, strings.TrimSpace("return "+strings.Join(rs, ", ")))
-	for _, e := range r.Results {
-		s.exprCalls(e)
-	}
+	c.stack[name] = true
+	c.block(fd.Body, c.roles(fd, init), depth+1, true)
+	delete(c.stack, name)
 }
 
-func (s *c02Skel) block(b *ast.BlockStmt) {
+// wrapped runs f and keeps what it emitted, between open and "}", only if it emitted something.
+func (c *c02Ctx) wrapped(open string, f func()) {
+	mark := len(c.out)
+	c.out = append(c.out, open)
+	f()
+	if len(c.out) == mark+1 {
+		c.out = c.out[:mark]
+		return
+	}
+	c.out = append(c.out, "}")
+}
+
+func (c *c02Ctx) block(b *ast.BlockStmt, roles map[string]string, depth int, helper bool) {
 	if b == nil {
 		return
 	}
 	for _, st := range b.List {
-		s.stmt(st)
+		c.stmt(st, roles, depth, helper)
 	}
 }
 
-func (s *c02Skel) stmt(st ast.Stmt) {
+func (c *c02Ctx) assignEvents(st ast.Stmt, roles map[string]string, depth int) {
+	a, ok := st.(*ast.AssignStmt)
+	if !ok {
+		return
+	}
+	for _, r := range a.Rhs {
+		c.exprEvents(r, roles, depth)
+	}
+	for _, l := range a.Lhs {
+		if id, ok := l.(*ast.Ident); ok {
+			if ro, ok := roles[id.Name]; ok && c.track != nil && c.track(ro) {
+				c.out = append(c.out, "set:"+ro)
+			}
+		} else {
+			c.exprEvents(l, roles, depth)
+		}
+	}
+}
+
+func (c *c02Ctx) stmt(st ast.Stmt, roles map[string]string, depth int, helper bool) {
 	switch v := st.(type) {
 	case *ast.BlockStmt:
-		s.block(v)
+		c.block(v, roles, depth, helper)
 	case *ast.IfStmt:
-		cond := s.x.src(v.Cond)
 		if v.Init != nil {
-			cond = s.x.src(v.Init) + "; " + cond
+			c.stmt(v.Init, roles, depth, helper)
 		}
-		if v.Init != nil {
-			s.assignOnly(v.Init)
-		}
-		s.out = append(s.out, "if("+cond+"){")
-		s.block(v.Body)
-		s.out = append(s.out, "}")
+		c.exprEvents(v.Cond, roles, depth)
+		c.wrapped("if("+c.cond(v.Cond, roles)+"){", func() { c.block(v.Body, roles, depth, helper) })
 		if v.Else != nil {
-			s.out = append(s.out, "else{")
-			s.stmt(v.Else)
-			s.out = append(s.out, "}")
+			c.wrapped("else{", func() { c.stmt(v.Else, roles, depth, helper) })
 		}
 	case *ast.ForStmt:
-		s.out = append(s.out, "for{")
-		s.block(v.Body)
-		s.out = append(s.out, "}")
+		if v.Init != nil {
+			c.stmt(v.Init, roles, depth, helper)
+		}
+		c.wrapped("for{", func() {
+			if v.Cond != nil {
+				c.exprEvents(v.Cond, roles, depth)
+			}
+			c.block(v.Body, roles, depth, helper)
+		})
 	case *ast.RangeStmt:
-		s.out = append(s.out, "range("+s.x.src(v.X)+"){")
-		s.block(v.Body)
-		s.out = append(s.out, "}")
+		c.exprEvents(v.X, roles, depth)
+		c.wrapped("range{", func() { c.block(v.Body, roles, depth, helper) })
 	case *ast.SwitchStmt:
-		s.block(v.Body)
+		c.block(v.Body, roles, depth, helper)
 	case *ast.TypeSwitchStmt:
-		s.block(v.Body)
+		c.block(v.Body, roles, depth, helper)
 	case *ast.SelectStmt:
-		s.block(v.Body)
+		c.block(v.Body, roles, depth, helper)
 	case *ast.CaseClause:
 		for _, b := range v.Body {
-			s.stmt(b)
+			c.stmt(b, roles, depth, helper)
 		}
 	case *ast.CommClause:
 		for _, b := range v.Body {
-			s.stmt(b)
+			c.stmt(b, roles, depth, helper)
 		}
 	case *ast.ReturnStmt:
-		s.ret(v)
-	case *ast.BranchStmt:
-		s.out = append(s.out, v.Tok.String())
-	case *ast.AssignStmt:
-		s.assignOnly(v)
-		for _, r := range v.Rhs {
-			s.exprCalls(r)
+		for _, e := range v.Results {
+			c.exprEvents(e, roles, depth)
 		}
+		if helper {
+			return // a helper's return ends the helper, not the anchored function
+		}
+		var rs []string
+		for _, e := range v.Results {
+			if id, ok := e.(*ast.Ident); ok && id.Name == "nil" {
+				rs = append(rs, "nil")
+			} else {
+				rs = append(rs, "val")
+			}
+		}
+		c.out = append(c.out, strings.TrimSpace("return "+strings.Join(rs, ",")))
+	case *ast.BranchStmt:
+		if !helper {
+			c.out = append(c.out, v.Tok.String())
+		}
+	case *ast.AssignStmt:
+		c.assignEvents(v, roles, depth)
 	case *ast.ExprStmt:
-		s.exprCalls(v.X)
+		c.exprEvents(v.X, roles, depth)
 	case *ast.DeferStmt:
-		s.exprCalls(v.Call)
+		c.exprEvents(v.Call, roles, depth)
 	case *ast.GoStmt:
-		s.exprCalls(v.Call)
+		c.exprEvents(v.Call, roles, depth)
 	case *ast.DeclStmt:
 		if gd, ok := v.Decl.(*ast.GenDecl); ok {
 			for _, sp := range gd.Specs {
 				if vs, ok := sp.(*ast.ValueSpec); ok {
-					for _, n := range vs.Names {
-						if s.vars[n.Name] {
-							s.out = append(s.out, "var "+n.Name)
-						}
-					}
 					for _, val := range vs.Values {
-						s.exprCalls(val)
+						c.exprEvents(val, roles, depth)
 					}
 				}
 			}
 		}
 	case *ast.LabeledStmt:
-		s.stmt(v.Stmt)
-	}
-}
-
-func (s *c02Skel) assignOnly(st ast.Stmt) {
-	a, ok := st.(*ast.AssignStmt)
-	if !ok {
-		return
-	}
-	for i, l := range a.Lhs {
-		if id, ok := l.(*ast.Ident); ok && s.vars[id.Name] {
-			rhs := "_"
-			if len(a.Lhs) == len(a.Rhs) {
-				rhs = s.x.src(a.Rhs[i])
-			}
-			s.out = append(s.out, id.Name+" "+a.Tok.String()+" "+rhs)
-		}
+		c.stmt(v.Stmt, roles, depth, helper)
+	case *ast.SendStmt:
+		c.exprEvents(v.Value, roles, depth)
 	}
 }
 
@@ -201,127 +461,231 @@ func c02Set(xs ...string) map[string]bool {
 	return m
 }
 
-func c02Skeleton(x *X, body *ast.BlockStmt, calls, vars map[string]bool) []string {
-	s := &c02Skel{x: x, calls: calls, vars: vars}
-	s.block(body)
-	return s.out
-}
-
-// c02FuncsCalling lists the functions of a package that contain a call to fn.
-func c02FuncsCalling(x *X, dir, fn string) []string {
-	var out []string
-	for _, f := range x.files(dir) {
-		for _, d := range f.Decls {
-			if fd, ok := d.(*ast.FuncDecl); ok && fd.Body != nil && len(x.calls(fd.Body, fn)) > 0 {
-				out = append(out, fd.Name.Name)
+// c02Keep keeps the calls whose rendered callee is one of the given names; an entry of the form `callee(args)`
+// additionally fixes the rendered arguments, an entry `.Method` matches that method on any receiver.
+func c02Keep(names ...string) func(string, []string) bool {
+	return func(callee string, args []string) bool {
+		full := callee + "(" + strings.Join(args, ", ") + ")"
+		for _, n := range names {
+			switch {
+			case strings.HasSuffix(n, ")"):
+				if full == n {
+					return true
+				}
+			case strings.HasPrefix(n, "."):
+				if strings.HasSuffix(callee, n) {
+					return true
+				}
+			case callee == n:
+				return true
 			}
 		}
+		return false
 	}
-	sort.Strings(out)
+}
+
+// c02Events lists the events of a function body (or of some statements of it).
+func c02Events(x *X, dir string, fd *ast.FuncDecl, stmts []ast.Stmt, keep func(string, []string) bool, track func(string) bool) []string {
+	c := &c02Ctx{x: x, dir: dir, pkgVars: c02PkgVars(x, dir), keep: keep, track: track, stack: map[string]bool{fd.Name.Name: true}}
+	roles := c.roles(fd, nil)
+	if stmts == nil {
+		stmts = fd.Body.List
+	}
+	for _, st := range stmts {
+		c.stmt(st, roles, 0, false)
+	}
+	return c.out
+}
+
+// ---- the cell -----------------------------------------------------------------------------------------------
+
+// c02CellVars: the package-level variables of package route of type atomic.Value.
+func c02CellVars(x *X) map[string]bool {
+	out := map[string]bool{}
+	for n, t := range c02PkgVars(x, "route") {
+		if t == "var:atomic.Value" {
+			out[n] = true
+		}
+	}
 	return out
 }
 
 func c02Cell(x *X) {
+	cell := c02CellVars(x)
+	x.defNat("cellVariables", uint64(len(cell)))
+	keepCell := func(callee string, _ []string) bool {
+		return strings.HasPrefix(callee, "var:atomic.Value.") || strings.HasPrefix(callee, "atomic.") || callee == "clear" || callee == "delete"
+	}
 	if fd := x.funcDecl("route", "", "SetTable"); fd != nil {
-		x.defStrList("setTableSkeleton", c02Skeleton(x, fd.Body, c02Set("table.Store"), nil))
+		x.defStrList("setTableEvents", c02Events(x, "route", fd, nil, keepCell, func(ro string) bool { return strings.HasPrefix(ro, "var:") }))
 	}
 	if fd := x.funcDecl("route", "", "GetTable"); fd != nil {
-		x.defStrList("getTableSkeleton", c02Skeleton(x, fd.Body, c02Set("table.Load"), nil))
-		x.defNat("getTableStatements", uint64(len(fd.Body.List)))
+		x.defStrList("getTableEvents", c02Events(x, "route", fd, nil, func(string, []string) bool { return true }, nil))
 	}
-	x.defStrList("tableStoreSites", c02FuncsCalling(x, "route", "table.Store"))
-	x.defStrList("tableLoadSites", c02FuncsCalling(x, "route", "table.Load"))
-	// the cell is touched through Load/Store only: every other mention of the identifier `table` as a
-	// selector base in package route would be e.g. table.CompareAndSwap / table.Swap
-	var other []string
+	// who touches the cell, and through which methods
+	var stores, loads, other []string
 	for _, f := range x.files("route") {
-		ast.Inspect(f, func(n ast.Node) bool {
-			if se, ok := n.(*ast.SelectorExpr); ok {
-				if id, ok := se.X.(*ast.Ident); ok && id.Name == "table" && id.Obj != nil && id.Obj.Kind == ast.Var {
-					if _, isPkgVar := id.Obj.Decl.(*ast.ValueSpec); isPkgVar && se.Sel.Name != "Load" && se.Sel.Name != "Store" {
-						other = append(other, se.Sel.Name)
-					}
-				}
+		for _, d := range f.Decls {
+			fd, ok := d.(*ast.FuncDecl)
+			if !ok || fd.Body == nil {
+				continue
 			}
-			return true
-		})
+			ast.Inspect(fd.Body, func(n ast.Node) bool {
+				se, ok := n.(*ast.SelectorExpr)
+				if !ok {
+					return true
+				}
+				id, ok := se.X.(*ast.Ident)
+				if !ok || !cell[id.Name] || (id.Obj != nil && id.Obj.Kind == ast.Var && func() bool { _, pkg := id.Obj.Decl.(*ast.ValueSpec); return !pkg }()) {
+					return true
+				}
+				switch se.Sel.Name {
+				case "Store":
+					stores = append(stores, fd.Name.Name)
+				case "Load":
+					loads = append(loads, fd.Name.Name)
+				default:
+					other = append(other, fd.Name.Name+"."+se.Sel.Name)
+				}
+				return true
+			})
+		}
 	}
+	sort.Strings(stores)
+	sort.Strings(loads)
 	sort.Strings(other)
+	x.defStrList("tableStoreSites", stores)
+	x.defStrList("tableLoadSites", loads)
 	x.defStrList("tableOtherUses", other)
 }
 
+// ---- table construction ----------------------------------------------------------------------------------------
+
 func c02Build(x *X) {
-	calls := c02Set("Parse", "make", "sort.Sort")
+	keep := c02Keep("Parse", "make(Table)", "sort.Sort(rangeV)")
 	if fd := x.funcDecl("route", "", "NewTable"); fd != nil {
-		x.defStrList("newTableSkeleton", c02Skeleton(x, fd.Body, calls, nil))
+		x.defStrList("newTableEvents", c02Events(x, "route", fd, nil, keep, nil))
 	}
 	if fd := x.funcDecl("route", "", "NewTableCustom"); fd != nil {
-		sk := c02Skeleton(x, fd.Body, calls, nil)
-		x.defStrList("newTableCustomSkeleton", sk)
-		// nil guard: `if defs == nil {` + a return with a nil table and a non-nil error, before `range(*defs)`
-		guard := false
-		for i, t := range sk {
-			if strings.HasPrefix(t, "range(") {
-				break
-			}
-			if t == "if(defs == nil){" && i+1 < len(sk) && strings.HasPrefix(sk[i+1], "return nil, ") && sk[i+1] != "return nil, nil" {
-				guard = true
-			}
-		}
-		x.defBool("newTableCustomNilGuard", guard)
+		x.defStrList("newTableCustomEvents", c02Events(x, "route", fd, nil, keep, nil))
 	}
 	if fd := x.funcDecl("route", "", "Parse"); fd != nil {
-		x.defStrList("parseSkeleton", c02Skeleton(x, fd.Body, c02Set("scanner.Scan", "scanner.Err", "bufio.NewScanner"), nil))
+		ev := c02Events(x, "route", fd, nil, c02Keep("bufio.NewScanner", ".Scan", ".Err"), nil)
+		// the dispatch on the line's shape (comment / blank / add / del / weight) is not pinned: keep the scanner
+		// calls, the loop, the nil guards with their returns, and the final return
+		var out []string
+		for i := 0; i < len(ev); i++ {
+			e := ev[i]
+			if strings.HasPrefix(e, "if(") && e != "if(≠nil){" {
+				// skip a non-nil-guard `if` with everything inside it
+				depth := 1
+				for i++; i < len(ev) && depth > 0; i++ {
+					if strings.HasSuffix(ev[i], "{") {
+						depth++
+					} else if ev[i] == "}" {
+						depth--
+					}
+				}
+				i--
+				continue
+			}
+			if e == "else{" {
+				depth := 1
+				for i++; i < len(ev) && depth > 0; i++ {
+					if strings.HasSuffix(ev[i], "{") {
+						depth++
+					} else if ev[i] == "}" {
+						depth--
+					}
+				}
+				i--
+				continue
+			}
+			out = append(out, e)
+		}
+		x.defStrList("parseEvents", out)
 	}
 }
+
+// ---- watchBackend -----------------------------------------------------------------------------------------------
 
 func c02Watch(x *X) {
 	fd := x.funcDecl(".", "", "watchBackend")
 	if fd == nil {
 		return
 	}
-	// the `default:` clause of `switch cfg.Registry.Backend`
-	var def *ast.CaseClause
+	// the else-branch of the dispatch on cfg.Registry.Backend (the `default:` clause before normalisation): the
+	// branch that is taken for every backend but "custom" = the last `else` of the chain, or the default clause
+	var def []ast.Stmt
 	ast.Inspect(fd.Body, func(n ast.Node) bool {
-		if sw, ok := n.(*ast.SwitchStmt); ok && sw.Tag != nil && x.src(sw.Tag) == "cfg.Registry.Backend" {
-			for _, c := range sw.Body.List {
-				if cc, ok := c.(*ast.CaseClause); ok && cc.List == nil {
-					def = cc
+		switch v := n.(type) {
+		case *ast.SwitchStmt:
+			if v.Tag != nil && strings.HasSuffix(x.src(v.Tag), "Registry.Backend") {
+				for _, c := range v.Body.List {
+					if cc, ok := c.(*ast.CaseClause); ok && cc.List == nil {
+						def = cc.Body
+					}
+				}
+			}
+		case *ast.IfStmt:
+			if strings.Contains(x.src(v.Cond), "Registry.Backend") && def == nil {
+				var last ast.Stmt = v
+				for {
+					is, ok := last.(*ast.IfStmt)
+					if !ok || is.Else == nil {
+						break
+					}
+					last = is.Else
+				}
+				if b, ok := last.(*ast.BlockStmt); ok {
+					def = b.List
 				}
 			}
 		}
 		return true
 	})
 	if def == nil {
-		x.fail("watchBackend: default clause of switch cfg.Registry.Backend not found")
+		x.fail("watchBackend: branch for the text backends (default of the dispatch on cfg.Registry.Backend) not found")
 		return
 	}
-	s := &c02Skel{x: x,
-		calls: c02Set("tableBuffer.WriteString", "tableBuffer.Reset", "route.ParseAliases", "registry.Default.Register", "route.NewTable", "route.SetTable", "logRoutes", "once.Do", "close"),
-		vars:  c02Set("lastTable", "nextTable")}
-	for _, st := range def.Body {
-		s.stmt(st)
-	}
-	x.defStrList("watchBackendSkeleton", s.out)
-	// lastTable is assigned exactly once in the whole function
+	keep := c02Keep("new(bytes.Buffer).WriteString", "new(bytes.Buffer).Reset", "route.ParseAliases", "registry.Default.Register", "route.NewTable", "route.SetTable")
+	// stores to the candidate text (assigned from the buffer's String()) and to the remembered text (copied from it)
+	track := func(ro string) bool { return strings.Contains(ro, "String#0") }
+	ev := c02Events(x, ".", fd, def, keep, track)
+	x.defStrList("watchBackendEvents", ev)
 	n := 0
-	ast.Inspect(fd.Body, func(m ast.Node) bool {
-		if a, ok := m.(*ast.AssignStmt); ok {
-			for _, l := range a.Lhs {
-				if id, ok := l.(*ast.Ident); ok && id.Name == "lastTable" {
-					n++
-				}
-			}
+	for _, e := range ev {
+		if e == "set:copy(String#0)" {
+			n++
 		}
-		return true
-	})
-	x.defNat("watchBackendLastTableAssignments", uint64(n))
+	}
+	// stores to the remembered text anywhere in the function (all branches)
+	all := c02Events(x, ".", fd, nil, func(string, []string) bool { return false }, func(ro string) bool { return ro == "copy(String#0)" })
+	m := 0
+	for _, e := range all {
+		if e == "set:copy(String#0)" {
+			m++
+		}
+	}
+	x.defNat("watchBackendLastTableAssignments", uint64(m))
 	x.defNat("watchBackendSetTableCalls", uint64(len(x.calls(fd.Body, "route.SetTable"))))
+	_ = n
 }
 
+// ---- custom backend ---------------------------------------------------------------------------------------------
+
 func c02Custom(x *X) {
-	fd := x.funcDecl("registry/custom", "", "customRoutes")
+	// the poll function is found by what it does (it calls route.NewTableCustom), not by its unexported name
+	var fd *ast.FuncDecl
+	for _, f := range x.files("registry/custom") {
+		for _, d := range f.Decls {
+			if g, ok := d.(*ast.FuncDecl); ok && g.Body != nil && len(x.calls(g.Body, "route.NewTableCustom")) > 0 {
+				fd = g
+			}
+		}
+	}
 	if fd == nil {
+		x.fail("registry/custom: no function calls route.NewTableCustom")
 		return
 	}
 	var loop *ast.ForStmt
@@ -334,21 +698,21 @@ func c02Custom(x *X) {
 		x.fail("customRoutes: poll loop not found")
 		return
 	}
-	s := &c02Skel{x: x, calls: c02Set("client.Do", "decoder.Decode", "route.NewTableCustom", "route.SetTable"), vars: c02Set()}
-	s.block(loop.Body)
-	// drop the `if resp != nil { defer … }` and `if err := resp.Body.Close()` noise: keep ifs that contain a
-	// continue or follow one of the kept calls
-	x.defStrList("customRoutesSkeleton", s.out)
+	keep := c02Keep(".Do", ".Decode", "route.NewTableCustom", "route.SetTable")
+	x.defStrList("customRoutesEvents", c02Events(x, "registry/custom", fd, loop.Body.List, keep, nil))
 	// where is the decode target declared?
 	target := ""
-	for _, c := range x.calls(loop.Body, "decoder.Decode") {
-		if len(c.Args) == 1 {
-			if u, ok := c.Args[0].(*ast.UnaryExpr); ok && u.Op == token.AND {
-				target = x.src(u.X)
+	ast.Inspect(loop.Body, func(n ast.Node) bool {
+		if c, ok := n.(*ast.CallExpr); ok && len(c.Args) == 1 {
+			if se, ok := c.Fun.(*ast.SelectorExpr); ok && se.Sel.Name == "Decode" {
+				if u, ok := c.Args[0].(*ast.UnaryExpr); ok && u.Op == token.AND {
+					target = x.src(u.X)
+				}
 			}
 		}
-	}
-	x.defStr("customRoutesDecodeTarget", target)
+		return true
+	})
+	x.defBool("customRoutesDecodeTargetFound", target != "")
 	inLoop := false
 	ast.Inspect(loop.Body, func(m ast.Node) bool {
 		switch d := m.(type) {
@@ -372,51 +736,45 @@ func c02Custom(x *X) {
 	x.defBool("customRoutesVarInLoop", inLoop)
 }
 
+// ---- panic points -------------------------------------------------------------------------------------------------
+
+// c02SelCalls: the selector names of the method/function calls in a body, sorted and unique.
+func c02SelCalls(body ast.Node) []string {
+	seen := map[string]bool{}
+	ast.Inspect(body, func(n ast.Node) bool {
+		if c, ok := n.(*ast.CallExpr); ok {
+			if se, ok := c.Fun.(*ast.SelectorExpr); ok {
+				seen[se.Sel.Name] = true
+			}
+		}
+		return true
+	})
+	var out []string
+	for k := range seen {
+		out = append(out, k)
+	}
+	sort.Strings(out)
+	return out
+}
+
+func c02HasRecover(x *X, fd *ast.FuncDecl) bool { return len(x.calls(fd.Body, "recover")) > 0 }
+
 func c02Panics(x *X) {
+	// recover sites, described by what they guard (the method calls in the recovering function)
 	var rec []string
 	for _, dir := range []string{"route", ".", "registry/custom"} {
 		for _, f := range x.files(dir) {
 			for _, d := range f.Decls {
-				if fd, ok := d.(*ast.FuncDecl); ok && fd.Body != nil && len(x.calls(fd.Body, "recover")) > 0 {
-					rec = append(rec, dir+":"+fd.Name.Name)
+				if fd, ok := d.(*ast.FuncDecl); ok && fd.Body != nil && c02HasRecover(x, fd) {
+					rec = append(rec, dir+":recover-around:"+strings.Join(c02SelCalls(fd.Body), ","))
 				}
 			}
 		}
 	}
 	sort.Strings(rec)
 	x.defStrList("recoverSites", rec)
-
-	guarded := func(name string) bool {
-		fd := x.funcDecl("route", "Table", name)
-		if fd == nil {
-			return false
-		}
-		sk := c02Skeleton(x, fd.Body, nil, nil)
-		for i, t := range sk {
-			if t == "if(!validWeight(d.Weight)){" && i+1 < len(sk) && sk[i+1] == "return errInvalidWeight" {
-				return true
-			}
-		}
-		return false
-	}
-	x.defBool("addRouteRejectsNonFinite", guarded("addRoute"))
-	x.defBool("weighRouteRejectsNonFinite", guarded("weighRoute"))
-	if fd := x.funcDecl("route", "", "validWeight"); fd != nil {
-		x.defBool("validWeightChecksNaNAndInf", len(x.calls(fd.Body, "math.IsNaN")) > 0 && len(x.calls(fd.Body, "math.IsInf")) > 0)
-	}
-	if fd := x.funcDecl("route", "Table", "addRoute"); fd != nil {
-		x.defBool("addRouteCompilesHost", len(x.calls(fd.Body, "glob.Compile")) >= 2 && func() bool {
-			for _, c := range x.calls(fd.Body, "glob.Compile") {
-				if len(c.Args) == 1 && x.src(c.Args[0]) == "host" {
-					return true
-				}
-			}
-			return false
-		}())
-	}
-	x.defStrList("mustCompileSites", c02FuncsCalling(x, "route", "glob.MustCompile"))
-	// who calls Match on a compiled glob (method call `.Match(…)` with one argument) in package route
-	var ms []string
+	// every one-argument `.Match(…)` call of package route sits in a function that recovers
+	guarded, total := 0, 0
 	for _, f := range x.files("route") {
 		for _, d := range f.Decls {
 			fd, ok := d.(*ast.FuncDecl)
@@ -432,33 +790,126 @@ func c02Panics(x *X) {
 				}
 				return true
 			})
-			if n > 0 {
-				ms = append(ms, fd.Name.Name)
+			total += n
+			if c02HasRecover(x, fd) {
+				guarded += n
 			}
 		}
 	}
-	sort.Strings(ms)
-	x.defStrList("globMatchSites", ms)
-	if fd := x.funcDecl("route", "", "globMatch"); fd != nil {
-		x.defStrList("globMatchSkeleton", c02Skeleton(x, fd.Body, c02Set("recover", "g.Match"), nil))
+	x.defNat("globMatchCalls", uint64(total))
+	x.defNat("globMatchCallsGuarded", uint64(guarded))
+
+	// every function of package route that reads the Weight of a *RouteDef parameter refuses non-finite values:
+	// it has a guard that returns a non-nil error and whose condition (through unexported predicates) calls
+	// math.IsNaN and math.IsInf
+	var readers []string
+	var compileArgs []int
+	for _, f := range x.files("route") {
+		for _, d := range f.Decls {
+			fd, ok := d.(*ast.FuncDecl)
+			if !ok || fd.Body == nil || fd.Type.Params == nil {
+				continue
+			}
+			param := ""
+			for _, p := range fd.Type.Params.List {
+				if x.src(p.Type) == "*RouteDef" && len(p.Names) == 1 {
+					param = p.Names[0].Name
+				}
+			}
+			if param == "" {
+				continue
+			}
+			reads := false
+			ast.Inspect(fd.Body, func(n ast.Node) bool {
+				if se, ok := n.(*ast.SelectorExpr); ok && se.Sel.Name == "Weight" {
+					if id, ok := se.X.(*ast.Ident); ok && id.Name == param {
+						reads = true
+					}
+				}
+				return true
+			})
+			if reads {
+				ok := false
+				ast.Inspect(fd.Body, func(n ast.Node) bool {
+					is, isIf := n.(*ast.IfStmt)
+					if !isIf || !strings.Contains(x.src(is.Cond), param+".Weight") {
+						return true
+					}
+					names := map[string]bool{}
+					x.WalkInlined("route", &ast.FuncDecl{Name: ast.NewIdent("cond"), Type: &ast.FuncType{}, Body: &ast.BlockStmt{List: []ast.Stmt{&ast.ExprStmt{X: is.Cond}}}}, func(m ast.Node) bool {
+						if c, ok := m.(*ast.CallExpr); ok {
+							names[x.src(c.Fun)] = true
+						}
+						return true
+					})
+					returnsErr := false
+					for _, st := range is.Body.List {
+						if r, ok := st.(*ast.ReturnStmt); ok && len(r.Results) >= 1 {
+							last := r.Results[len(r.Results)-1]
+							if id, ok := last.(*ast.Ident); !ok || id.Name != "nil" {
+								returnsErr = true
+							}
+						}
+					}
+					if names["math.IsNaN"] && names["math.IsInf"] && returnsErr {
+						ok = true
+					}
+					return true
+				})
+				if ok {
+					readers = append(readers, "guarded")
+				} else {
+					readers = append(readers, "UNGUARDED:"+fd.Name.Name)
+				}
+			}
+			// distinct arguments handed to glob.Compile by a function that takes a *RouteDef
+			args := map[string]bool{}
+			for _, c := range x.calls(fd.Body, "glob.Compile") {
+				if len(c.Args) == 1 {
+					args[x.src(c.Args[0])] = true
+				}
+			}
+			if len(args) > 0 {
+				compileArgs = append(compileArgs, len(args))
+			}
+		}
 	}
+	sort.Strings(readers)
+	x.defStrList("weightReaders", readers)
+	sort.Ints(compileArgs)
+	var ca []string
+	for _, n := range compileArgs {
+		ca = append(ca, itoa(n))
+	}
+	x.defStrList("routeDefGlobCompileDistinctArgs", ca)
+	x.defStrList("mustCompileSites", c02FuncsCalling(x, "route", "glob.MustCompile"))
 }
 
-// c02Lookups: every function literal or function of main.go that calls Lookup / LookupHost on a table loads
-// the table exactly once.
+// c02FuncsCalling lists the functions of a package that contain a call to fn.
+func c02FuncsCalling(x *X, dir, fn string) []string {
+	var out []string
+	for _, f := range x.files(dir) {
+		for _, d := range f.Decls {
+			if fd, ok := d.(*ast.FuncDecl); ok && fd.Body != nil && len(x.calls(fd.Body, fn)) > 0 {
+				out = append(out, fd.Name.Name)
+			}
+		}
+	}
+	sort.Strings(out)
+	return out
+}
+
+// c02Lookups: every innermost function literal of package main that calls Lookup / LookupHost on a table loads the
+// table exactly once.
 func c02Lookups(x *X) {
 	var counts []string
 	for _, f := range x.files(".") {
 		ast.Inspect(f, func(n ast.Node) bool {
-			var body *ast.BlockStmt
-			name := ""
-			switch v := n.(type) {
-			case *ast.FuncLit:
-				body, name = v.Body, "func@"+x.fset.Position(v.Pos()).Filename[strings.LastIndex(x.fset.Position(v.Pos()).Filename, "/")+1:]
-			default:
+			v, ok := n.(*ast.FuncLit)
+			if !ok {
 				return true
 			}
-			// innermost literals only: a literal that contains another lookup literal is skipped
+			body := v.Body
 			looks := 0
 			ast.Inspect(body, func(m ast.Node) bool {
 				if c, ok := m.(*ast.CallExpr); ok {
@@ -481,7 +932,7 @@ func c02Lookups(x *X) {
 			if inner {
 				return true
 			}
-			counts = append(counts, name+":lookups="+itoa(looks)+":getTable="+itoa(len(x.calls(body, "route.GetTable"))))
+			counts = append(counts, "lookups="+itoa(looks)+":getTable="+itoa(len(x.calls(body, "route.GetTable"))))
 			return true
 		})
 	}
